@@ -4,7 +4,7 @@ property's clauses evaluated directly on the strings the real code prints (the o
 import ast, contextlib, io, itertools, os, re, tempfile, time
 from fractions import Fraction
 
-from vlib.core import PropertyCheck
+from vlib.core import PropertyCheck, TranslatorError
 from vlib import paths
 
 # ------------------------------------------------------------------------------------------
@@ -12,6 +12,7 @@ from vlib import paths
 #   gate op : {"k":"g","name":str,"label":str|None,"t":[…],"c":[…]|None,"cc":[…]|None,"raw":bool}
 #             raw = built with the base class Gate (user gates, unusual shapes); otherwise add_gate(name)
 #   meas op : {"k":"m","t":[…],"s":int}
+#   global  : {"k":"G","name":str,"label":str|None}   gate with targets = controls = None (GLOBALPHASE)
 # style keys given to draw(): gate_pad, end_wire_ext, align_layer, wire_label and "ignored" = dict of
 # StyleConfig fields the text renderer does not read (passed to the code, not to the model).
 
@@ -22,6 +23,64 @@ LIB_2T = ["SWAP", "ISWAP", "SQRTSWAP", "SQRTISWAP", "BERKELEY", "SWAPALPHA", "MS
 LIB_1C1T = ["CNOT", "CX", "CY", "CZ", "CS", "CT", "CSIGN", "CPHASE", "CRX", "CRY", "CRZ"]
 STYLE_READ = {"gate_pad", "wire_label", "end_wire_ext", "align_layer", "gate_margin"}
 GLYPHS = set("┤├█│┴┬╳╥║╩╨─═┌┐└┘")
+
+
+# ------------------------------------------------------------------------------------------
+# which of the proposed repairs (fixes/C20-1..3) does the working tree contain?  (AST, formatting independent)
+VARIANT = {"spanFix": False, "insideNode": False, "globalBox": False}     # set by C20.regenerate
+_SPAN_OLD = ["sorted_controls[-1] > sorted_targets[0]", "sorted_controls[0] < sorted_targets[-1]",
+             "wire not in gate.targets",
+             "sorted_controls[-1] > sorted_targets[0]", "sorted_controls[0] < sorted_targets[-1]"]
+_SPAN_NEW = ["sorted_controls[-1] > sorted_targets[-1]", "sorted_controls[0] < sorted_targets[0]",
+             "not first_target <= wire <= last_target",
+             "sorted_controls[-1] > sorted_targets[-1]", "sorted_controls[0] < sorted_targets[0]"]
+
+
+def detect_variant():
+    path = os.path.join(paths.REPO, "src", "qutip_qip", "circuit", "text_renderer.py")
+    try:
+        tree = ast.parse(open(path, encoding="utf-8").read())
+    except Exception as e:
+        raise TranslatorError(f"cannot parse {path}: {e}")
+    fns = {n.name: n for n in ast.walk(tree) if isinstance(n, ast.FunctionDef)}
+    for need in ("_draw_multiq_gate", "_update_qbridge", "_update_target_multiq", "layout"):
+        if need not in fns:
+            raise TranslatorError("TextRenderer." + need + " not found")
+    seen = []
+    # the two marks of the box frame
+    for glyph in ("┴", "┬"):
+        t = [ast.unparse(n.test) for n in ast.walk(fns["_draw_multiq_gate"]) if isinstance(n, ast.IfExp)
+             and any(isinstance(k, ast.Constant) and k.value == glyph for k in ast.walk(n.body))]
+        seen.append(t[0] if len(t) == 1 else "?")
+    # the wires the bridge pass leaves out
+    loops = [n for n in ast.walk(fns["_update_qbridge"]) if isinstance(n, ast.For)]
+    if len(loops) != 1 or not isinstance(loops[0].body[0], ast.If):
+        raise TranslatorError("_update_qbridge: loop over the bridge wires not recognised")
+    seen.append(ast.unparse(loops[0].body[0].test))
+    # is_top / is_bot of layout
+    for nm in ("is_top", "is_bot"):
+        v = [ast.unparse(n.value) for n in ast.walk(fns["layout"]) if isinstance(n, ast.Assign)
+             and len(n.targets) == 1 and isinstance(n.targets[0], ast.Name) and n.targets[0].id == nm]
+        seen.append(v[0] if len(v) == 1 else "?")
+    if seen == _SPAN_OLD:
+        span = False
+    elif seen == _SPAN_NEW:
+        span = True
+    else:
+        raise TranslatorError("box-span tests of the text renderer not recognised: " + repr(seen))
+    # node of a control between the targets
+    nodes = [n for n in ast.walk(fns["_update_target_multiq"]) if isinstance(n, ast.Constant) and n.value == "█"]
+    tests = [ast.unparse(n.test) for n in ast.walk(fns["_update_target_multiq"]) if isinstance(n, ast.If)]
+    if not nodes:
+        inside = False
+    elif "gate.controls and wire in gate.controls" in tests:
+        inside = True
+    else:
+        raise TranslatorError("_update_target_multiq draws a node under an unrecognised condition")
+    # gate without targets
+    gtests = [ast.unparse(n.test) for n in ast.walk(fns["layout"]) if isinstance(n, ast.If)]
+    glob = "gate.targets is None and gate.controls is None" in gtests
+    return {"spanFix": span, "insideNode": inside, "globalBox": glob}
 
 
 def _impl():
@@ -36,6 +95,8 @@ def build(w):
     for op in w["ops"]:
         if op["k"] == "m":
             qc.add_measurement("M", targets=list(op["t"]), classical_store=op["s"])
+        elif op["k"] == "G":
+            qc.add_gate(op["name"], arg_value=0.5, arg_label=op["label"])
         elif op.get("raw"):
             qc.add_gate(Gate(name=op["name"], targets=list(op["t"]),
                              controls=None if op["c"] is None else list(op["c"]),
@@ -60,6 +121,8 @@ def classify_exc(e):
         return "index"
     if isinstance(e, ValueError):
         return "value"
+    if isinstance(e, TypeError):
+        return "type"
     return "other:" + type(e).__name__
 
 
@@ -108,6 +171,8 @@ def enc_op(op):
     if op["k"] == "m":
         return "m:%s:%d" % (",".join(map(str, op["t"])), op["s"])
     lab = "-" if op["label"] is None else "L" + enc_str(op["label"])
+    if op["k"] == "G":
+        return "G:%s:%s" % (enc_str(op["name"]), lab)
     cs = "-" if op["c"] is None else "c" + ",".join(map(str, op["c"]))
     return "g:%s:%s:%s:%s" % (enc_str(op["name"]), lab, ",".join(map(str, op["t"])), cs)
 
@@ -115,10 +180,11 @@ def enc_op(op):
 def model_line(w, cmd="render"):
     sty = w["style"]
     fr = Fraction(sty.get("gate_pad", 0.05))      # exact value of the float the code receives
-    assert fr >= 0
-    s = "%s n=%d c=%d padn=%d padd=%d ext=%d align=%d" % (
+    assert fr > -1
+    s = "%s n=%d c=%d padn=%d padd=%d ext=%d align=%d var=%d%d%d" % (
         cmd, w["N"], w["C"], fr.numerator, fr.denominator, sty.get("end_wire_ext", 2),
-        1 if sty.get("align_layer", False) else 0)
+        1 if sty.get("align_layer", False) else 0,
+        VARIANT["spanFix"], VARIANT["insideNode"], VARIANT["globalBox"])
     wl = sty.get("wire_label")
     if wl is not None:
         s += " labels=" + "".join(enc_str(x) + ";" for x in wl)
@@ -140,10 +206,19 @@ def gate_text(op):
     return op["label"] if op["label"] is not None else op["name"]
 
 
+def norm_ops(w):
+    """The circuit's elements with a gate on the whole register (k = G) written as the box over all
+    qubits that the repaired renderer draws for it."""
+    return [dict(k="g", name=o["name"], label=o["label"], t=list(range(w["N"])), c=None, cc=None, glob=True)
+            if o["k"] == "G" else o for o in w["ops"]]
+
+
 def op_class(op):
     """single | swap | multi | meas — the four pictures the renderer has."""
     if op["k"] == "m":
         return "meas"
+    if op["k"] == "G":
+        return "global"
     if len(op["t"]) == 1 and op["c"] is None:
         return "single"
     if op["name"] == "SWAP":
@@ -152,26 +227,31 @@ def op_class(op):
 
 
 def gap_gate(op):
-    """The class of the known finding: a multi-qubit box with controls whose targets do not fill
+    """The class of the recorded finding: a multi-qubit box with controls whose targets do not fill
     their span (some wire strictly inside the span is not a target)."""
-    if op_class(op) != "multi" or not op["c"]:
+    if op_class(op) != "multi" or not op["c"] or not op["t"]:
         return False
     lo, hi = min(op["t"]), max(op["t"])
     return any(x not in op["t"] for x in range(lo, hi + 1))
 
 
+def inside_ctrl(op):
+    """... and one of its controls lies strictly between two targets."""
+    return gap_gate(op) and any(min(op["t"]) < c < max(op["t"]) for c in op["c"])
+
+
 def in_domain(w):
     """Circuits the property quantifies over and the oracle can read back unambiguously:
     distinct in-range qubits, single-target measurements into existing bits, labels without
-    box-drawing glyphs / leading or trailing blanks, full-length wire labels, gate_pad >= 0,
-    end_wire_ext >= 0."""
+    box-drawing glyphs / leading or trailing blanks, full-length wire labels, gate_pad > -1
+    (ceil(gate_pad) >= 0), end_wire_ext >= 0.  Gates on the whole register (GLOBALPHASE) belong to it."""
     N, C, sty = w["N"], w["C"], w["style"]
-    if N < 1 or sty.get("gate_pad", 0.05) < 0 or sty.get("end_wire_ext", 2) < 0:
+    if N < 1 or sty.get("gate_pad", 0.05) <= -1 or sty.get("end_wire_ext", 2) < 0:
         return False
     wl = sty.get("wire_label")
     if wl is not None and (len(wl) != N + C or any(GLYPHS & set(x) or "\n" in x for x in wl)):
         return False
-    for op in w["ops"]:
+    for op in norm_ops(w):
         if op["k"] == "m":
             if len(op["t"]) != 1 or not (0 <= op["t"][0] < N) or not (0 <= op["s"] < C):
                 return False
@@ -188,8 +268,20 @@ def in_domain(w):
 
 
 def covered(w):
-    """in_domain and outside the class of the recorded finding (the hypothesis of equal_width_partial)."""
-    return in_domain(w) and not any(o["k"] == "g" and gap_gate(o) for o in w["ops"])
+    """in_domain and outside the classes of the recorded findings that the tree at hand still has
+    (= the hypotheses of the theorems for the variant of the tree): boxes with controls and a gap
+    in their targets unless the tree has fixes/C20-1 (and C20-2 if a control lies in the gap);
+    gates on the whole register unless it has fixes/C20-3."""
+    if not in_domain(w):
+        return False
+    for o in w["ops"]:
+        if o["k"] == "G" and not VARIANT["globalBox"]:
+            return False
+        if o["k"] == "g" and gap_gate(o) and not VARIANT["spanFix"]:
+            return False
+        if o["k"] == "g" and inside_ctrl(o) and not VARIANT["insideNode"]:
+            return False
+    return True
 
 
 def oracle_rows(w, rows):
@@ -219,8 +311,9 @@ def oracle_rows(w, rows):
             bad.append("row_order: label area of wire %d not blank above/below" % wire)
     # labels in order ---------------------------------------------------------------------
     p = ceil(sty.get("gate_pad", 0.05))
+    ops = norm_ops(w)
     exp = {q: [] for q in range(N)}
-    for op in w["ops"]:
+    for op in ops:
         k = op_class(op)
         if k == "meas":
             exp[op["t"][0]].append("M")
@@ -255,7 +348,7 @@ def oracle_rows(w, rows):
         return rr if at(rr, x) == stop else None
 
     exp_ctrl, exp_swap, exp_meas = [], [], []
-    for op in w["ops"]:
+    for op in ops:
         k = op_class(op)
         if k == "multi" and op["c"]:
             lo, hi = min(op["t"]), max(op["t"])
@@ -282,6 +375,12 @@ def oracle_rows(w, rows):
                 u = trace(r, x, -1, "│█", "┬")
                 if u is not None and u % 3 == 2:
                     hits.append((wire_of_row(r), "bot", wire_of_row(u)))
+                if not hits:
+                    # a control between the targets of its gate: the node sits inside the box
+                    lft = row[body_from:x].rstrip(" ")
+                    rgt = row[x + 1:].lstrip(" ")
+                    if lft.endswith("│") and rgt.startswith("│") and at(r - 1, x) == " " and at(r + 1, x) == " ":
+                        hits.append((wire_of_row(r), "inside", -1))
                 if len(hits) != 1:
                     bad.append("links_reach: control node on wire %d (column %d) reaches %s" % (wire_of_row(r), x, hits))
                 got_ctrl.extend(hits)
@@ -298,6 +397,10 @@ def oracle_rows(w, rows):
                     bad.append("links_reach: measurement link from wire %d (column %d) does not reach a classical wire" % (wire_of_row(r), x))
                 else:
                     got_meas.append((wire_of_row(r), wire_of_row(d)))
+            elif ch == "┴" and at(r - 1, x) not in ("│", "█"):
+                bad.append("links_reach: mark ┴ on a box frame without a link above it (row %d column %d)" % (r, x))
+            elif ch == "┬" and at(r + 1, x) not in ("│", "█"):
+                bad.append("links_reach: mark ┬ on a box frame without a link below it (row %d column %d)" % (r, x))
             elif ch in "╩╨":
                 if ch == "╨" or trace(r, x, -1, "║", "╥") is None:
                     bad.append("links_reach: dangling classical connector at row %d column %d" % (r, x))
@@ -326,7 +429,7 @@ def rand_style(rng, N, C, wild=False):
     sty = {}
     r = rng.random()
     if r < 0.75:
-        sty["gate_pad"] = rng.choice([0, 0.0, 0.05, 0.5, 1, 1.0, 1.2, 2, 2.5, 3.0000001, 0.999])
+        sty["gate_pad"] = rng.choice([0, 0.0, 0.05, 0.5, 1, 1.0, 1.2, 2, 2.5, 3.0000001, 0.999, -0.5, -0.999, -0.0])
     if rng.random() < 0.7:
         sty["end_wire_ext"] = rng.choice([0, 1, 2, 3, 5, 9] + ([-1, -4, 40] if wild else []))
     if rng.random() < 0.5:
@@ -414,6 +517,10 @@ def rand_circuit(rng, wild=False, allow_gap=True, maxN=6, maxC=3, maxops=12):
             ops.append({"k": "m", "t": t, "s": s})
         else:
             ops.append(rand_gate(rng, N, C, wild, allow_gap))
+    if rng.random() < (0.08 if VARIANT["globalBox"] or wild else 0.03):
+        # a gate on the whole register (the decompositions of resolve_gates emit GLOBALPHASE)
+        ops.insert(rng.randint(0, len(ops)), {"k": "G", "name": rng.choice(["GLOBALPHASE", "GLOBALPHASE", "Gph"]),
+                                              "label": rand_text(rng, wild) if rng.random() < 0.4 else None})
     return {"N": N, "C": C, "style": rand_style(rng, N, C, wild), "ops": ops}
 
 
@@ -438,6 +545,7 @@ def single_gate_cases(maxN, maxC=1):
                 yield N, C, {"k": "g", "name": "Z", "label": None, "t": [a], "c": [], "cc": None, "raw": True}
                 for s in range(C):
                     yield N, C, {"k": "m", "t": [a], "s": s}
+            yield N, C, {"k": "G", "name": "GLOBALPHASE", "label": None}
 
 
 SINGLE_STYLES = [
@@ -466,6 +574,13 @@ class C20(PropertyCheck):
         "QipVerif.C20.links_reach_control",
         "QipVerif.C20.links_reach_swap",
         "QipVerif.C20.links_reach_measure",
+        "QipVerif.C20.equal_width",
+        "QipVerif.C20.draw_succeeds_valid",
+        "QipVerif.C20.equal_width_witnesses_repaired",
+        "QipVerif.C20.control_position",
+        "QipVerif.C20.global_gate_not_drawn",
+        "QipVerif.C20.global_gate_counterexample",
+        "QipVerif.C20.global_gate_covered",
     ]
     technique = ("Lean 4 proof (invariants of the renderer's append-only row state, by induction over the circuit) "
                  "+ model/implementation correspondence with exact string equality")
@@ -476,11 +591,15 @@ class C20(PropertyCheck):
                   "read off a qubit's middle row are, in circuit order, the labels of the elements boxed on it; and, for circuits meeting "
                   "the decidable hypothesis circOk, the drawing succeeds, all rows have one width, and every control / SWAP / measurement "
                   "link is one unbroken column from node to box mark. The clause 'all rows of equal width' is REFUTED for the code as it "
-                  "is (kernel-decided counter-examples, reproduced on the implementation; known finding). The model is tied to the code by "
+                  "is (kernel-decided counter-examples, reproduced on the implementation; known finding). The model is parametric in "
+                  "Render.Variant (which of the proposed repairs fixes/C20-1..3 the tree contains, read from the source with ast): with "
+                  "C20-1 equal_width is proved at full strength for every valid circuit, with C20-2 every control of every valid gate has "
+                  "its node and link, with C20-3 gates on the whole register (GLOBALPHASE) are drawn instead of raising TypeError. "
+                  "The model is tied to the code by "
                   "exact string equality of every printed row: exhaustive over every placed single element on <= 4 qubits, random and "
                   "malformed circuits beyond.")
-    level_note = ("Partial: equal_width holds only under circOk (boxes with controls have contiguous targets; one-target measurements; "
-                  "end_wire_ext >= 0; a label for every wire). Classical controls are not drawn by the text renderer at all, so there is "
+    level_note = ("Partial on the shipped tree: equal_width holds only under circOk (boxes with controls have contiguous targets; "
+                  "one-target measurements; end_wire_ext >= 0; a label for every wire); full strength on a tree with fixes/C20-1. Classical controls are not drawn by the text renderer at all, so there is "
                   "no link to state for them. Trusted: Lean kernel; Model/Render.lean as transcription (validated by the correspondence); "
                   "the harness py/props/c20.py.")
     trusted_base = [
@@ -489,7 +608,7 @@ class C20(PropertyCheck):
         "(Python str = list of code points, += on per-wire strings = list append), validated by this correspondence",
         "py/props/c20.py (harness: stdout capture of draw('text'), exception classes {IndexError, ValueError})",
     ]
-    assumptions = ["gate_pad >= 0 and indices are non-negative (Python's negative-index wrap-around is outside the model)",
+    assumptions = ["gate_pad > -1 (so that ceil(gate_pad) >= 0) and indices are non-negative (Python's negative-index wrap-around is outside the model)",
                    "labels contain no newline (rows are read back from the printed output line by line)"]
     rule = ("case = (N <= 6 qubits, C <= 3 bits, style options, list of gates/measurements); exhaustive stream: every "
             "placement of one gate of every shape (<= 3 targets, <= 3 controls), SWAP, measurement on <= 4 qubits under 4 styles; "
@@ -497,6 +616,14 @@ class C20(PropertyCheck):
             "end_wire_ext, glyphs inside labels; non-trivial = at least one operation spanning >= 2 wires or >= 2 operations")
 
     # ---------------------------------------------------------------------------------
+    def regenerate(self, ctx):
+        """No generated Lean file: the model is parametric in `Render.Variant`; which variant the tree at
+        hand is, is read from its source and sent to the driver with every request (`var=`)."""
+        VARIANT.update({"spanFix": False, "insideNode": False, "globalBox": False})
+        VARIANT.update(detect_variant())        # TranslatorError -> the check reports it and keeps the shipped variant
+        ctx.log("text renderer variant: " + ", ".join(f"{k}={int(v)}" for k, v in VARIANT.items()))
+        return []
+
     def _style_fields_read(self):
         """Names X of `self.style.X` in text_renderer.py and in BaseRenderer._get_xskip/_manage_layers."""
         base = os.path.join(paths.REPO, "src", "qutip_qip", "circuit")
@@ -520,12 +647,14 @@ class C20(PropertyCheck):
             mst, mrows = dec_rows(o)
             ist, irows = impl_draw(w)
             nontrivial = len(w["ops"]) >= 2 or any(
-                (o_["k"] == "m") or len(o_["t"]) + len(o_["c"] or []) >= 2 for o_ in w["ops"])
+                (o_["k"] in "mG") or len(o_["t"]) + len(o_["c"] or []) >= 2 for o_ in w["ops"])
             kinds = sorted(set(op_class(o_) for o_ in w["ops"]))
             tags = [f"stream={stream}", f"N={w['N']}", f"C={w['C']}", f"verdict={mst}", f"ops={min(len(w['ops']), 12)}"] + \
                    [f"kind={k}" for k in kinds] + [f"style={k}" for k in sorted(w["style"]) if k != "ignored"]
             if any(o_["k"] == "g" and gap_gate(o_) for o_ in w["ops"]):
-                tags.append("class=gap-gate(known finding)")
+                tags.append("class=gap-gate")
+            if any(o_["k"] == "g" and inside_ctrl(o_) for o_ in w["ops"]):
+                tags.append("class=control-inside-box")
             res.case(w, nontrivial=nontrivial, tags=tags)
             if mst != ist:
                 res.disagree(w, mst, ist, "verdict (ok / exception class) of the drawing", w)
@@ -617,7 +746,7 @@ class C20(PropertyCheck):
             if time.time() - t0 > budget_s:
                 return
         while time.time() - t0 < budget_s:
-            w = rand_circuit(ctx.rng, wild=False, allow_gap=False, maxops=rng_small(ctx.rng))
+            w = rand_circuit(ctx.rng, wild=False, allow_gap=VARIANT["spanFix"], maxops=rng_small(ctx.rng))
             if not covered(w):
                 continue
             f, d = self.oracle_replay(ctx, w)
@@ -637,7 +766,7 @@ class C20(PropertyCheck):
                 if f:
                     yield w, d
         for _ in range(15000 if ctx.thorough else 1500):
-            w = rand_circuit(ctx.rng, wild=False, allow_gap=False, maxops=rng_small(ctx.rng))
+            w = rand_circuit(ctx.rng, wild=False, allow_gap=VARIANT["spanFix"], maxops=rng_small(ctx.rng))
             if covered(w):
                 f, d = self.oracle_replay(ctx, w)
                 if f:
